@@ -117,6 +117,22 @@ def build(backend):
     add("md-override-builtin", f"ds.Select(lambda e: e.{first}('A').Select(lambda j: j.pt()))", [(ct, "A")], md=[over], headers=[f"my/{first}.h"], libs=[f"lib{first}"] if backend == "atlas" else [])
     add("md-with-builtin", f"ds.Select(lambda e: (e.Things('A').Count(), e.{names[1]}('B').Count()))", [(ct, "A"), (colls[names[1]][0], "B")], md=[good],
         headers=hdr + [colls[names[1]][1]], libs=lib + [colls[names[1]][2]])
+    # two (and three) metadata-declared collections in one query, every declaration order, each one used
+    second = names[1]
+    c2t = colls[second][0]
+    e2t = {"atlas": c2t.replace("Container", ""), "cms_aod": c2t.replace("Collection", ""), "cms_miniaod": c2t.replace("Collection", "")}[backend]
+    other = decl(backend, "Others", c2t, e2t)
+    ohdr = ["my/Others.h"]
+    olib = ["libOthers"] if backend == "atlas" else []
+    for order in ((good, other), (other, good)):
+        add("md-two-declared", "ds.Select(lambda e: (e.Things('A').Select(lambda j: j.pt()), e.Others('B').Select(lambda j: j.pt())))", [(ct, "A"), (c2t, "B")], md=list(order),
+            headers=hdr + ohdr, libs=lib + olib)
+        add("md-two-declared-first-only", "ds.Select(lambda e: e.Things('A').Count())", [(ct, "A")], md=list(order), headers=hdr, libs=lib)
+        add("md-two-declared-second-only", "ds.Select(lambda e: e.Others('B').Count())", [(c2t, "B")], md=list(order), headers=ohdr, libs=olib)
+        add("md-two-declared-nested", "ds.Select(lambda e: e.Things('A').Select(lambda j: e.Others('B').Count()))", [(ct, "A"), (c2t, "B")], md=list(order), exact=False,
+            headers=hdr + ohdr, libs=lib + olib)
+        add("md-override-and-declared", f"ds.Select(lambda e: (e.{first}('A').Count(), e.Others('B').Count()))", [(ct, "A"), (c2t, "B")], md=[over if o is good else o for o in order],
+            headers=[f"my/{first}.h"] + ohdr, libs=([f"lib{first}"] if backend == "atlas" else []) + olib)
     if backend == "atlas":
         sing = decl(backend, "MyInfo", "xAOD::EventInfo", None, singleton=True)
         add("md-singleton", "ds.Select(lambda e: e.MyInfo('EI').pt())", [("xAOD::EventInfo", "EI")], md=[sing], headers=["my/MyInfo.h"], libs=["libMyInfo"])
